@@ -8,14 +8,15 @@ SPEC = {
                   "if Drop allows, the remote address is a certified address of the peer inside my overlay networks or inside one of its certified unsafe "
                   "networks, and the local address is one of my certified addresses or inside my certified unsafe networks; HostInfo.buildNetworks "
                   "(table vs single-address shortcut) is characterised against the certificate. Tied to the real NewFirewall/buildNetworks/Drop with "
-                  "multi-address peers, spoofed addresses, tuples tracked by another peer and pre-filled caches.",
+                  "multi-address peers, spoofed addresses, tuples tracked by another peer and pre-filled caches. "
+                  "System level (component sysmon_C17): in seeded event histories of four real nodes built by nebula.Main (two-address peers, an unsafe network, spoofed and crafted inner addresses) every inner packet delivered to a tun, and every inner packet found on the wire by decrypting it with the receiver's key, carries a peer address certified for that peer (inside the node's networks or the peer's unsafe networks) and a node address that is the node's own or inside its unsafe networks.",
     "level_note": "Trusted: Coq kernel; bart modelled as longest-prefix match (lib/Ip.v); the correspondence is differential testing. Soundness only: that every "
                   "authentic address is accepted is exercised by the correspondence, not proved (a certified address outside my networks shadows an unsafe network: 'peer rejected').",
     "gens": ["gen_fwrules"],
     "build_comp": "fwrules",
     "props": ["props/C17.v"],
     "corr": ["corr/Firewall_corr.v"],
-    "comps": [{"comp": "fwrules_addr", "n_quick": 1000, "n_thorough": 20000}],
+    "comps": [{"comp": "fwrules_addr", "n_quick": 1000, "n_thorough": 20000}, {"comp": "sysmon_C17", "e2e": True, "n_quick": 12, "n_thorough": 150}],
     "trusted": ["model/Firewall.v drop/remote_check/hostinfo_of/routable are hand-written mirrors of Firewall.Drop, HostInfo.buildNetworks and NewFirewall (tied by correspondence)",
                 "lib/Ip.v models bart.Lite / bart.Table as prefix sets with contains / longest-prefix-match semantics",
                 "HostInfo.vpnAddrs = addresses of the peer certificate's networks, in order (handshake_manager.go; built that way by the shim)"],
